@@ -12,7 +12,7 @@ CHECK_DEADLOCK FALSE
 def run(prop, tier, seed, scratch, t0):
     binary = vlib.build_harness(scratch)
     if tier == "quick":
-        cfgs = [(3, ["Register", "Fund", "FundEgo0", "FundEgo1"])]
+        cfgs = [(3, ["Register", "Fund", "FundEgo0", "FundEgo1"]), (2, ["Progress", "Withdraw", "FundEgo2"])]
     else:
         cfgs = [(3, ["Register", "Progress", "Withdraw", "Fund", "FundEgo0", "FundEgo1", "FundEgo2"]),
                 (4, ["Withdraw", "FundEgo1", "FundEgo2"])]
